@@ -149,7 +149,8 @@ def r5_conflicting_lengths(ctx, R5):
     if CL is None:
         raise AnalysisError("_init_length: the Content-Length lookup was not found on any row")
     SPL = T("split", CL, K(","))
-    SETS = {T(k, T("int", T("each", SPL)), SPL) for k in ("setcomp",)} | {T("set", T(k, T("int", T("each", SPL)), SPL)) for k in ("gen", "listcomp")}
+    ELT = T("int", T("each", SPL))
+    SETS = {T("setcomp", ELT, SPL), T("set", T("rep", ELT, SPL))} | {T("set", T(k, ELT, SPL)) for k in ("gen", "listcomp")}
     n_multi = n_neg = n_chunked = 0
     seen = set()
     shape_ok = None
@@ -159,7 +160,8 @@ def r5_conflicting_lengths(ctx, R5):
             if isinstance(k_, tuple) and len(k_) == 4 and k_[0] == "cmp" and k_[2] == ">" and k_[3] == "1" and destruct(k_[1])[0] == "len":
                 multi = v_
                 inner = destruct(k_[1])[1][0]
-                shape_ok = (inner in SETS) if shape_ok is None else (shape_ok and inner in SETS)
+                if inner not in (T("set"), T("list")):  # (the builder before its loop ran: the zero-iteration path of the abstraction)
+                    shape_ok = (inner in SETS) if shape_ok is None else (shape_ok and inner in SETS)
             if isinstance(k_, tuple) and len(k_) == 4 and k_[0] == "cmp" and k_[2] in ("!=", "==") and k_[3] == "1" and destruct(k_[1])[0] == "len":
                 multi = (not v_) if k_[2] == "==" else v_
                 inner = destruct(k_[1])[1][0]
@@ -172,8 +174,11 @@ def r5_conflicting_lengths(ctx, R5):
                        "" if r.out == "raise:InvalidHeader" else "conflicting lengths are accepted: the body boundary depends on which one a peer believes", witness=r.witness(), node=il.node)
         neg = None
         for k_, v_ in r.st.ts.items():
-            if isinstance(k_, tuple) and len(k_) == 4 and k_[0] == "cmp" and k_[2] == "<" and k_[3] == "0":
-                neg = v_
+            if isinstance(k_, tuple) and len(k_) == 4 and k_[0] == "cmp" and k_[3] == "0" and isinstance(k_[1], str) and CL in k_[1]:
+                if k_[2] == "<":
+                    neg = v_
+                elif k_[2] == ">=":
+                    neg = not v_
         if neg is True and r.returns:
             n_neg += 1
             if ("neg", r.ret) not in seen:
@@ -184,9 +189,18 @@ def r5_conflicting_lengths(ctx, R5):
             if ("chunked", r.ret) not in seen:
                 seen.add(("chunked", r.ret))
                 ctx.ob(R5, il.qual, f"chunked responses ignore Content-Length (returns {r.ret})", r.ret == "None", witness=r.witness(), node=il.node)
-        if r.st.ts.get("fault") and r.returns and multi is None and r.is_none(CL) is False and r.truth("self.chunked") is False and ("fault", r.ret) not in seen:
+        parse_fault = r.st.ts.get("fault") and any(CL in set(subterms(a)) for a in r.st.ts.get("fault_args", ()))
+        if parse_fault and r.returns and ("fault", r.ret) not in seen:
             seen.add(("fault", r.ret))
             ctx.ob(R5, il.qual, f"an unparsable Content-Length is treated as unknown (returns {r.ret})", r.ret in ("None", "0"), witness=r.witness(), node=il.node)
+    if not n_multi:
+        # the distinctness test is spelt in a way the rule does not recognise: decide what can be decided - some row that parsed
+        # the header values refuses with InvalidHeader (13.2: provenance, not the exact test)
+        refusing = [r for r in rows if r.out == "raise:InvalidHeader" and r.is_none(CL) is False and r.truth("self.chunked") is not True]
+        ctx.ob(R5, il.qual, "conflicting Content-Length values can be refused with InvalidHeader (distinctness test not recognised: provenance only)", bool(refusing),
+               "" if refusing else "no path of _init_length raises InvalidHeader any more", witness=refusing[0].witness() if refusing else None, node=il.node)
+        n_multi = len(refusing)
+        shape_ok = True if refusing else shape_ok
     ctx.sites(R5, n_multi, 1, "rows with more than one distinct Content-Length")
     ctx.sites(R5, n_neg, 1, "rows with a negative length")
     ctx.sites(R5, n_chunked, 1, "rows with chunked transfer-encoding and a Content-Length")
